@@ -374,6 +374,8 @@ func main() {
 		cmdComplete(os.Args[2:])
 	case "dag":
 		cmdDag(os.Args[2:])
+	case "dagrace":
+		cmdDagRace(os.Args[2:])
 	default:
 		fmt.Fprintln(os.Stderr, "unknown subcommand", os.Args[1])
 		os.Exit(2)
